@@ -1,0 +1,1 @@
+//! Verification hooks: matching (see mod.rs).
